@@ -70,7 +70,7 @@ def pname(names, k):
     if names == "all":
         return "p%d" % k
     if names == "mixed":
-        return "q%d" % k if k % 2 == 0 else None
+        return "q" if k % 2 == 0 else None          # the same name for several points (the running iterate "x")
     return None
 
 
